@@ -1,8 +1,8 @@
 (* C01 — operators compute exact integer results in shapes that never overflow.
    Statements only; proofs in Proofs/ExprP.v, Proofs/GenEqOps.v. *)
 From Coq Require Import ZArith List Bool.
-From V.Model Require Import Bits Shape Ast Denote PyRTL PyEval.
-From V.Proofs Require Import BitsP ShapeP ExprP GenEqOps.
+From V.Model Require Import Bits Shape Ast Denote PyRTL PyEval Derived.
+From V.Proofs Require Import BitsP ShapeP ExprP GenEqOps DerivedP.
 From V.Gen Require OpShape.
 Import ListNotations.
 Open Scope Z_scope.
@@ -54,6 +54,60 @@ Theorem C01_gen_op2_shape o sa sb : (match o with OShl | OShr => sgn sb = false 
   OpShape.op2_shape (op2_name o) sa sb = Some (op2_shape o sa sb).
 Proof. exact (op2_shape_eq o sa sb). Qed.
 Print Assumptions C01_gen_op2_shape.
+
+(* --- operators defined by rewriting (hdl/_ast.py), against their documented results --- *)
+(* Mux(sel, a, b): a when sel is non-zero, b otherwise; shape = the unification of both *)
+Theorem C01_mux_spec en sel a b : wf_expr sel = true -> wf_expr a = true -> wf_expr b = true ->
+  env_ok en sel -> env_ok en a -> env_ok en b ->
+  wf_expr (mk_mux sel a b) = true /\ env_ok en (mk_mux sel a b) /\
+  denote en (mk_mux sel a b) = (if denote en sel =? 0 then denote en b else denote en a) /\
+  shape_of (mk_mux sel a b) = unify2 (shape_of b) (shape_of a).
+Proof. exact (mk_mux_spec en sel a b). Qed.
+Print Assumptions C01_mux_spec.
+
+(* abs(e) = |e| in unsigned(len(e)) — the most negative value included *)
+Theorem C01_abs_spec en e : wf_expr e = true -> env_ok en e ->
+  wf_expr (mk_abs e) = true /\ env_ok en (mk_abs e) /\
+  denote en (mk_abs e) = Z.abs (denote en e) /\ shape_of (mk_abs e) = Sh (ewidth e) false.
+Proof. exact (mk_abs_spec en e). Qed.
+Print Assumptions C01_abs_spec.
+
+(* e.shift_left(n) = e * 2^n exactly, n more bits, signedness kept *)
+Theorem C01_shift_left_spec en e n : wf_expr e = true -> env_ok en e -> 0 <= n ->
+  wf_expr (mk_shift_left e n) = true /\ env_ok en (mk_shift_left e n) /\
+  denote en (mk_shift_left e n) = denote en e * 2 ^ n /\
+  shape_of (mk_shift_left e n) = Sh (ewidth e + n) (sgn (shape_of e)).
+Proof. exact (mk_shift_left_spec en e n). Qed.
+Print Assumptions C01_shift_left_spec.
+
+(* e.shift_right(n) = floor(e / 2^n) for every n >= 0 (amounts beyond the width included) *)
+Theorem C01_shift_right_spec en e n : wf_expr e = true -> env_ok en e -> 0 <= n ->
+  wf_expr (mk_shift_right e n) = true /\ env_ok en (mk_shift_right e n) /\
+  denote en (mk_shift_right e n) = denote en e / 2 ^ n.
+Proof. exact (mk_shift_right_spec en e n). Qed.
+Print Assumptions C01_shift_right_spec.
+
+(* e[k] for k in range(-len, len): the bit at the Python-normalised index *)
+Theorem C01_index_spec en e k : wf_expr e = true -> env_ok en e -> - ewidth e <= k < ewidth e ->
+  wf_expr (mk_index e k) = true /\
+  denote en (mk_index e k) = Z.b2z (Z.testbit (denote en e) (if k <? 0 then k + ewidth e else k)).
+Proof. exact (mk_index_spec en e k). Qed.
+Print Assumptions C01_index_spec.
+
+(* Array(elems)[index] with an in-range unsigned index: the element at that position *)
+Theorem C01_array_spec en elems index : wf_expr index = true -> env_ok en index -> sgn (shape_of index) = false ->
+  0 <= denote en index < Z.of_nat (length elems) ->
+  denote en (mk_array elems index) = denote en (nth (Z.to_nat (denote en index)) elems (EConst 0 (Sh 0 false))).
+Proof. exact (mk_array_spec en elems index). Qed.
+Print Assumptions C01_array_spec.
+
+Example C01_derived_example :
+  let en : env := fun i => match i with O => -8 | _ => 2 end in
+  let s := ESig 0 (Sh 4 true) in
+  denote en (mk_abs s) = 8 /\ denote en (mk_shift_right s 9) = -1 /\ denote en (mk_shift_left s 2) = -32 /\
+  denote en (mk_array [EConst 5 (Sh 3 false); s; EConst 1 (Sh 1 false)] (ESig 1 (Sh 2 false))) = 1 /\
+  denote en (mk_rotate_left s 1) = 1 /\ denote en (mk_replicate (ESlice s 3 4) 3) = 7.
+Proof. vm_compute. repeat split. Qed.
 
 (* non-vacuity: (~a).bit_select(off, 4) + (b * -3 >> 1) on concrete signals is well-formed, in range, and
    circuit = spec *)
